@@ -72,14 +72,22 @@ impl LazyParameters {
     ///
     /// A mutex guard containing a reference to the parameters store
     pub fn get(&self) -> std::sync::MutexGuard<'_, Option<ParametersStore>> {
+        #[cfg(feature = "verif_hooks")]
+        crate::verif_hooks::point("parameters.get.enter");
         self.init.call_once(|| {
+            #[cfg(feature = "verif_hooks")]
+            crate::verif_hooks::point("parameters.init.begin");
             let m = ParametersStore::new([
                 BLANK,
                 LHS,
                 RHS,
             ]);
             *self.data.lock().unwrap() = Some(m);
+            #[cfg(feature = "verif_hooks")]
+            crate::verif_hooks::point("parameters.init.end");
         });
+        #[cfg(feature = "verif_hooks")]
+        crate::verif_hooks::point("parameters.get.before_lock");
         self.data.lock().unwrap()
     }
 }
